@@ -198,6 +198,82 @@ func (s *Solver) Check(extra *Term, wantModel bool) (SatResult, map[string]uint6
 	return res, model
 }
 
+// EvalIn returns the value of t in some model of the current assertions
+// (works for terms containing uninterpreted functions).
+func (s *Solver) EvalIn(t *Term) (uint64, bool) {
+	s.noteVars(t, map[*Term]bool{})
+	r := s.pr.ref(t)
+	s.send(s.pr.flush())
+	s.queries++
+	s.send("(check-sat)\n(echo \"eoq\")\n")
+	verdict := ""
+	for {
+		line := s.readLine()
+		if strings.Contains(line, "solver died") {
+			return 0, false
+		}
+		if strings.Contains(line, "eoq") {
+			break
+		}
+		if line == "sat" || line == "unsat" || line == "unknown" {
+			verdict = line
+		}
+	}
+	if verdict != "sat" {
+		return 0, false
+	}
+	s.satN++
+	s.send("(get-value (" + r + "))\n")
+	depth := 0
+	var text strings.Builder
+	started := false
+	for {
+		line, err := s.out.ReadString('\n')
+		if err != nil {
+			return 0, false
+		}
+		text.WriteString(line)
+		for _, c := range line {
+			if c == '(' {
+				depth++
+				started = true
+			} else if c == ')' {
+				depth--
+			}
+		}
+		if started && depth <= 0 {
+			break
+		}
+	}
+	toks := tokenize(text.String())
+	// ((expr value)) : value is the last token(s) before the closing parens
+	for i := len(toks) - 1; i >= 0; i-- {
+		tk := toks[i]
+		switch {
+		case tk == ")" || tk == "(":
+			continue
+		case tk == "true":
+			return 1, true
+		case tk == "false":
+			return 0, true
+		case strings.HasPrefix(tk, "#x"):
+			v, err := strconv.ParseUint(tk[2:], 16, 64)
+			return v, err == nil
+		case strings.HasPrefix(tk, "#b"):
+			v, err := strconv.ParseUint(tk[2:], 2, 64)
+			return v, err == nil
+		default:
+			// (_ bvN W): N is toks[i-1]
+			if i >= 2 && strings.HasPrefix(toks[i-1], "bv") {
+				v, err := strconv.ParseUint(toks[i-1][2:], 10, 64)
+				return v, err == nil
+			}
+			return 0, false
+		}
+	}
+	return 0, false
+}
+
 func (s *Solver) getModel() map[string]uint64 {
 	var b strings.Builder
 	b.WriteString("(get-value (")
